@@ -231,6 +231,15 @@ def run(ck):
     if ck.wants("C11.19"):
         from . import c14 as _c14_11b
         _c14_11b.join_score(RuleView(ck, {"C14.2": "C11.19"}))
+    ck.clause("C11.21", "every query reaches the aligner trimmed (as C17.4): the reversed bit vector starts at the last label, the mirrored "
+                        "label coordinates at the molecule's end - the two origins coincide only when the molecule ends on its last label, "
+                        "so an untrimmed molecule is seeded in one frame and paired in another on the reverse strand only")
+    if ck.wants("C11.21"):
+        from .c17 import queries_trimmed as _qt11
+        _qt11(ck, "C11.21", references=False)
+    if ck.wants("C11.20"):
+        from .c07 import header_lookup_forward_only as _hlf11
+        _hlf11(RuleView(ck, {"C07.G28": "C11.20"}), "C07.G28")
     ck.clause("C11.17", "the reverse strand's vector is the forward vector reversed, so the forward vector must end in the last label's "
                         "bin: nothing is padded, cut or re-sized between vectorisation and blur (as C16.6) - a padded tail becomes a "
                         "shifted head on the reverse strand only")
